@@ -45,6 +45,7 @@ import (
 	"pgregory.net/rapid"
 
 	"verifharness/internal/ev"
+	"verifharness/internal/scratch"
 )
 
 const (
@@ -1179,17 +1180,11 @@ func (h *hist) opSetMax() {
 // ---------------------------------------------------------------------------------------------
 
 func scratchRoot() string {
-	for _, d := range []string{os.Getenv("VERIF_SCRATCH"), "/dev/shm", os.TempDir()} {
-		if d == "" {
-			continue
-		}
-		if st, err := os.Stat(d); err == nil && st.IsDir() {
-			if r, err := os.MkdirTemp(d, "work-C26-"); err == nil {
-				return r
-			}
-		}
+	r, err := scratch.Dir("work-C26-")
+	if err != nil {
+		panic(err)
 	}
-	panic("no scratch directory")
+	return r
 }
 
 func runHistory(t *rapid.T) { runProfile(t, false) }
